@@ -4,7 +4,8 @@ import itertools
 
 from vmon import env
 from vmon.hooks import call_guard
-from vmon.refsem import INDEX_SYMBOLS, index_value, shortest_digits, digits_for
+from vmon.oracles import judge_output, compare_with_reference
+from vmon.refsem import INDEX_SYMBOLS, index_value, shortest_digits, digits_for, ref_decode, RefReject
 from vmon.smiles_reader import read_smiles, SmilesSyntaxError
 
 ID = "C16"
@@ -13,7 +14,7 @@ EXHAUSTIVE = True
 RULE = ("exhaustive: every n in 0..65535 through the encoder-side conversion (shortest big-endian base-16 digits over the documented "
         "symbol order) and back through the decoder-side conversion; every triple over {16 index symbols, 4 non-index symbols, "
         "missing} through the decoder-side conversion (21^3 = 9261); at API level every Q < 4096: a crafted ring string and a crafted "
-        "branch string whose decoded ring size / branch length must be Q+1 (Q symbols of length 1, 2 and 3), and for every ring size / "
+        "branch string whose decoded ring size / branch length must be Q+1 (Q symbols of length 1, 2 and 3), ring / branch symbols whose index symbols straddle the end of an enclosing branch (judged by the reference derivation), and for every ring size / "
         "branch length up to 4096 a macrocycle / long-branch SMILES whose encoding must carry the shortest digits of Q. Sampled: "
         "larger n up to 16^6. distinct = distinct case; non-trivial = n >= 16 or a triple with a non-index symbol")
 ASSUMPTIONS = ["the documented order is [C]=0, [Ring1]=1, [Ring2]=2, [Branch1]=3, [=Branch1]=4, [#Branch1]=5, [Branch2]=6, [=Branch2]=7, "
@@ -27,7 +28,7 @@ def shards(tier):
 
 
 def floors(tier):
-    return {"helper_n": 65536, "helper_triples": 9261, "api_ring_Q": 4096, "api_branch_Q": 4096, "api_truncated_index": 3000, "api_encoder_ring": 150,
+    return {"helper_n": 65536, "helper_triples": 9261, "api_ring_Q": 4096, "api_branch_Q": 4096, "api_truncated_index": 3000, "api_index_across_branch_end": 5000, "api_encoder_ring": 150,
             "api_encoder_branch": 150}
 
 
@@ -150,6 +151,39 @@ def run(ctx):
                                                                        "ring_symbol_len": Lx, "digits": syms, "variant": variant,
                                                                        "expected_Q": q}, repr(d)[:200])
 
+    # ---- API level, decoder: only the end of the string (fragment) makes an index symbol "missing". A ring / branch symbol
+    # that sits near the end of a branch still takes its index symbols from what follows the branch: bodies of atoms and
+    # ring / branch symbols are wrapped in a branch whose declared length cuts them at every position, also inside a digit
+    # run, and judged against the reference derivation
+    table = sf.get_semantic_constraints()
+    atoms = ["[C]", "[N]", "[O]", "[=C]", "[S]", "[P]", "[F]", "[#C]", "[=N]"]
+    for it in range(400 if quick else 12000):
+        body = []
+        for _ in range(rng.randint(1, 6)):
+            body += [rng.choice(atoms) for _ in range(rng.randint(0, 4))]
+            L = rng.choice([1, 1, 2, 2, 3])
+            body.append(rng.choice(["[Ring%d]", "[=Ring%d]", "[Branch%d]", "[=Branch%d]", "[#Branch%d]"]) % L)
+            body += [rng.choice(INDEX_SYMBOLS if rng.random() < 0.7 else INDEX_SYMBOLS[:4]) for _ in range(L)]
+        cut = rng.randint(1, len(body) + 1)
+        x = "".join([rng.choice(atoms) for _ in range(rng.randint(1, 6))] + ["[Branch1]"] + shortest_digits(cut - 1)[:1]
+                    + body + [rng.choice(atoms) for _ in range(rng.randint(0, 4))])
+        if rng.random() < 0.2:
+            x += ".[C][O]"
+        d = call_guard(lambda: sf.decoder(x), expected=(sf.DecoderError,))
+        ctx.count("api_index_across_branch_end")
+        ctx.case(("straddle", x), True, sample={"selfies": x} if it == 3 else None)
+        try:
+            ref = ref_decode(x, table)
+        except RefReject:
+            ref = None
+        if d[0] != "ok" or ref is None:
+            if not (d[0] == "err" and ref is None):
+                ctx.finding("index-symbols-across-branch-end-wrong", {"selfies": x}, "decoder %r, reference %s" % (d[:2], "accepts" if ref else "rejects"))
+            continue
+        status, _, detail = judge_output(d[1], None, accept=lambda m: compare_with_reference(m, ref))
+        if status not in ("ok", "budget"):
+            ctx.finding("index-symbols-across-branch-end-wrong", {"selfies": x, "output": d[1]}, "%s: %s" % (status, detail))
+
     # ---- API level, encoder: emitted digits are the shortest digits of Q
     sizes = list(range(3, 40)) + [255, 256, 257, 258, 259, 1000, 4095, 4096, 4097] + list(range(40, 4097, 37))
     for n in sizes[sh::ns]:
@@ -186,3 +220,18 @@ def replay(ctx, payload):
         r = call_guard(lambda: G.get_index_from_selfies(*t))
         if r != ("ok", index_value(t)):
             ctx.finding("decoder-side-triple-wrong", payload, repr(r))
+    elif payload.get("selfies"):
+        sf = env.load_selfies()
+        x = payload["selfies"]
+        d = call_guard(lambda: sf.decoder(x), expected=(sf.DecoderError,))
+        try:
+            ref = ref_decode(x, sf.get_semantic_constraints())
+        except RefReject:
+            ref = None
+        if d[0] != "ok" or ref is None:
+            if not (d[0] == "err" and ref is None):
+                ctx.finding("index-symbols-across-branch-end-wrong", payload, repr(d[:2]))
+            return
+        status, _, detail = judge_output(d[1], None, accept=lambda m: compare_with_reference(m, ref))
+        if status not in ("ok", "budget"):
+            ctx.finding("index-symbols-across-branch-end-wrong", payload, "%s: %s" % (status, detail))
